@@ -46,6 +46,20 @@
 
 #define MAYBE_UNUSED(x) (void)((x))
 
+/* Verification hook (off unless BLAKE3_TEAM_BLAKE3_VERIF is defined): a
+ * settable callback invoked at every dispatch and between the load and the
+ * store of the CPU feature cache, so a simulator can interleave callers. */
+#if defined(BLAKE3_TEAM_BLAKE3_VERIF)
+void (*blake3_verif_yield_hook)(int site) = 0;
+#define BLAKE3_VERIF_YIELD(site)                                               \
+  do {                                                                         \
+    if (blake3_verif_yield_hook)                                               \
+      blake3_verif_yield_hook(site);                                           \
+  } while (0)
+#else
+#define BLAKE3_VERIF_YIELD(site)
+#endif
+
 #if defined(IS_X86)
 static uint64_t xgetbv(void) {
 #if defined(_MSC_VER)
@@ -155,6 +169,7 @@ static
         }
       }
     }
+    BLAKE3_VERIF_YIELD(16);
     ATOMIC_STORE(g_cpu_features, features);
     return features;
 #else
@@ -169,6 +184,7 @@ void blake3_compress_in_place(uint32_t cv[8],
                               const uint8_t block[BLAKE3_BLOCK_LEN],
                               uint8_t block_len, uint64_t counter,
                               uint8_t flags) {
+  BLAKE3_VERIF_YIELD(17);
 #if defined(IS_X86)
   const enum cpu_feature features = get_cpu_features();
   MAYBE_UNUSED(features);
@@ -198,6 +214,7 @@ void blake3_compress_xof(const uint32_t cv[8],
                          const uint8_t block[BLAKE3_BLOCK_LEN],
                          uint8_t block_len, uint64_t counter, uint8_t flags,
                          uint8_t out[64]) {
+  BLAKE3_VERIF_YIELD(18);
 #if defined(IS_X86)
   const enum cpu_feature features = get_cpu_features();
   MAYBE_UNUSED(features);
@@ -232,6 +249,7 @@ void blake3_xof_many(const uint32_t cv[8],
     // The current assembly implementation always outputs at least 1 block.
     return;
   }
+  BLAKE3_VERIF_YIELD(20);
 #if defined(IS_X86)
   const enum cpu_feature features = get_cpu_features();
   MAYBE_UNUSED(features);
@@ -251,6 +269,7 @@ void blake3_hash_many(const uint8_t *const *inputs, size_t num_inputs,
                       size_t blocks, const uint32_t key[8], uint64_t counter,
                       bool increment_counter, uint8_t flags,
                       uint8_t flags_start, uint8_t flags_end, uint8_t *out) {
+  BLAKE3_VERIF_YIELD(19);
 #if defined(IS_X86)
   const enum cpu_feature features = get_cpu_features();
   MAYBE_UNUSED(features);
